@@ -199,6 +199,106 @@ async fn sequential_with_failures(rep: &mut Report, n: u32) {
     w.client.stop_session_pool_cleanup().await;
 }
 
+
+/// sequential requests some of which the application abandons in mid-transfer (it drops its socket while the
+/// target is still sending, or while its own upload is still draining): the session behind such a request is
+/// healthy and must serve the next request
+async fn sequential_with_aborts(rep: &mut Report, n: u32, via_http: bool) {
+    let pool = SessionPoolConfig { check_interval: Duration::from_secs(3600), idle_timeout: Duration::from_secs(7200), min_idle_sessions: 1 };
+    let Some(w) = build_world(pool).await else {
+        rep.inconclusive("cannot build world");
+        return;
+    };
+    let http = if via_http {
+        match netkit::start_http(w.client.clone()).await {
+            Some((a, h)) => Some((a, h)),
+            None => {
+                rep.inconclusive("cannot start the HTTP front-end");
+                return;
+            }
+        }
+    } else {
+        None
+    };
+    let mut dials_after: Vec<usize> = Vec::new();
+    let mut kinds = Vec::new();
+    for i in 0..n {
+        let kind = i % 3; // 0 = ordinary, 1 = abandoned download, 2 = abandoned right after a big write
+        kinds.push(kind);
+        if kind == 0 {
+            if let Err(e) = socks_request(&w, 6000 + i).await {
+                rep.inconclusive(format!("request {i}: {e}"));
+                return;
+            }
+        } else {
+            let ip = netkit::uniq_ip(58, 6000 + i);
+            let r: Result<(), String> = async {
+                let mut s = match &http {
+                    None => {
+                        let (s, code) = netkit::socks5_connect(&w.socks, &SocksDest::V4(ip, w.target_port), Duration::from_secs(20)).await?;
+                        if code != 0 {
+                            return Err(format!("socks reply {code}"));
+                        }
+                        s
+                    }
+                    Some((addr, _)) => {
+                        let mut s = TcpStream::connect(addr).await.map_err(|e| e.to_string())?;
+                        s.write_all(format!("CONNECT {ip}:{} HTTP/1.1\r\nHost: {ip}:{}\r\n\r\n", w.target_port, w.target_port).as_bytes()).await.map_err(|e| e.to_string())?;
+                        let mut head = Vec::new();
+                        let mut b = [0u8; 1];
+                        while !head.ends_with(b"\r\n\r\n") {
+                            match tokio::time::timeout(Duration::from_secs(20), s.read(&mut b)).await {
+                                Ok(Ok(1)) => head.push(b[0]),
+                                _ => return Err("no CONNECT reply".into()),
+                            }
+                        }
+                        s
+                    }
+                };
+                // the echo target sends back everything: a large upload becomes a large download
+                let blob = vec![0x5Au8; 400_000];
+                if kind == 1 {
+                    let (mut rd, mut wr) = s.split();
+                    let up = async {
+                        let _ = wr.write_all(&blob).await;
+                    };
+                    let down = async {
+                        let mut buf = [0u8; 1000];
+                        let _ = tokio::time::timeout(Duration::from_secs(10), rd.read_exact(&mut buf)).await;
+                    };
+                    // read a little of what comes back while the upload is still going, then walk away
+                    tokio::select! { _ = up => {}, _ = down => {} }
+                } else {
+                    let _ = tokio::time::timeout(Duration::from_secs(5), s.write_all(&blob)).await;
+                }
+                drop(s); // unread data in the socket: the front-end sees a reset
+                Ok(())
+            }
+            .await;
+            if let Err(e) = r {
+                rep.inconclusive(format!("abandoned request {i}: {e}"));
+                return;
+            }
+            // the tunnel winds down on its own; give it the usual settle time and a little more
+            tokio::time::sleep(Duration::from_millis(SETTLE_MS.load(Ordering::SeqCst) * 5 + 200)).await;
+        }
+        dials_after.push(w.relay.accepted.load(Ordering::SeqCst));
+    }
+    rep.add("sequential_requests_with_aborts", n as u64);
+    let fname = if via_http { "http_connect" } else { "socks5" };
+    let case = json!({"kind": "c13-sequential-aborts", "front": fname, "requests": n, "kinds": kinds, "tls_connections_after_each_request": dials_after});
+    rep.case(Some(hash_str(&case.to_string())));
+    let total = *dials_after.last().unwrap_or(&0);
+    if total > 1 {
+        rep.violate("reuse", &format!("sequential_requests_with_abandoned_transfers+{fname}"), "non_overlapping_request_redialled", format!("{n} sequential requests through {fname}, two of three abandoned by the application in mid-transfer, were served over {total} TLS connections: {:?}", dials_after), case.clone());
+    }
+    let open = w.relay.open.load(Ordering::SeqCst);
+    if open > 2 {
+        rep.violate("reuse", &format!("sequential_requests_with_abandoned_transfers+{fname}"), "sessions_accumulate", format!("{open} TLS connections are open after {n} sequential requests (peak concurrency 1, min_idle 1)"), case);
+    }
+    w.client.stop_session_pool_cleanup().await;
+}
+
 /// sequential requests separated by pauses longer than idle_timeout: with min_idle >= 1 the reaper
 /// keeps a session, so a later request must still be served without a new connection
 async fn sequential_with_pauses(rep: &mut Report, n: u32, min_idle: usize) {
@@ -570,6 +670,9 @@ fn run_once(ctx: Ctx) -> Report {
         for n in if quick { vec![8u32] } else { vec![8, 40] } {
             sequential_with_failures(&mut rep, n).await;
         }
+        for (n, via_http) in if quick { vec![(7u32, false), (7, true)] } else { vec![(7, false), (7, true), (31, false), (31, true)] } {
+            sequential_with_aborts(&mut rep, n, via_http).await;
+        }
         for long_first in [true, false] {
             overlap_then_sequential(&mut rep, long_first).await;
         }
@@ -629,7 +732,7 @@ pub fn meta() -> CheckMeta {
         level: "exploration",
         rule: "real Client + SOCKS5 front-end + Server over loopback TLS behind a TCP relay that counts TLS connections (accepted, open, peak). Sequential histories of 3-200 complete requests (connect, echo, application closes, target closes, front-end winds down) with min_idle in {0,1,2,5}: the number of TLS connections after each request is recorded; every request after the first must be served without a new connection, and at the end at most 1 + min_idle connections may be open. Paused histories: 4-10 sequential requests separated by 750 ms with idle_timeout 400 ms / check_interval 200 ms and min_idle >= 1 (the reaper must keep a session, so still 1 connection). Failure histories: 8-40 sequential requests of which every second one goes to a closed port (a refused open must not cost the session). Overlap histories (min_idle 0, idle_timeout 1500 ms, check_interval 150 ms): a long and a short request overlap, the short one finishes first and its session expires while the long one's session (released later, either creation order) is still fresh; the follow-up request must reuse it. Bursty histories: rounds of k in {2,4,8,16} concurrent requests, each round after the previous one finished: at most k connections in total, at most k+1 open. The reaper and keep-alive are effectively off (3600 s) so that only reuse is observed. distinct_nontrivial = distinct histories.".into(),
         assumptions: vec!["a request counts as finished once the application socket saw end of stream and 60 ms have passed".into(), "healthy session: the server and relay stay up for the whole history".into()],
-        floors: vec![("sequential_requests", 15), ("burst_rounds", 3), ("paused_sequential_requests", 4), ("sequential_requests_with_failures", 8), ("overlap_then_sequential_histories", 2)],
+        floors: vec![("sequential_requests", 15), ("burst_rounds", 3), ("paused_sequential_requests", 4), ("sequential_requests_with_failures", 8), ("overlap_then_sequential_histories", 2), ("sequential_requests_with_aborts", 12)],
         exhaustive: false,
     }
 }
